@@ -65,6 +65,7 @@ def parseOp? (w : List String) : Option Op :=
   | "send" :: rest => (parseFields? rest).map Op.send
   | ["flush"] => some .flush
   | ["stime", x] => some (.stime x)
+  | ["rtime", n] => (rtimeOf? n).map Op.rtime
   | _ => none
 
 def sessMonStep (ms : M) (w : List String) : M × String :=
